@@ -12,6 +12,45 @@ NOTE = ("Trusted base (repeated in each evidence file): pyvc's symbolic semantic
         "eleven built-in GridObject classes, ownership (no grid object reachable twice), partial correctness only, floats as reals.")
 
 CLAIMS = {
+    'C04': dict(
+        text="Proof: contracts on InnerEnv.reset/step/state/observation (executed on a GridWorld whose functional_* methods are "
+             "opaque stubs with a ghost call trace) and on OuterEnv.reset/step/state/observation: state replaced through the "
+             "functional interface, memoised observation invalidated on reset/step, computed at most once from the current "
+             "state, RuntimeError before the first reset, outer env = representation.convert of the inner state/observation. "
+             "The trajectory-equality claim follows by induction over the history from these per-call contracts (stated, not mechanised).",
+        design='5/C04'),
+    'C08': dict(
+        text="Proof: exact postconditions of move_agent / turn_agent / get_next_position against spec functions written from the "
+             "statement (symbolic grid shape, contents, pose, action), pose frames of every other built-in transition, door "
+             "blocking flags, turn-composition lemmas, and the invariant 'agent inside the grid on a non-blocking cell' preserved "
+             "by each of the seven built-in transitions (closure_* contracts). Initiation of the invariant by the reset functions "
+             "belongs to C13.",
+        design='5/C08'),
+    'C09': dict(
+        text="Proof: cell-exact postconditions (which slot changed, to what) for pickndrop, actuate_box, actuate_door, move_agent, "
+             "turn_agent, teleport, Grid.swap; for move_obstacles an indexed loop invariant (scenery fixed, floor/obstacle cells "
+             "closed, unprocessed obstacles in place, obstacles at most one step from a former obstacle) plus a per-iteration "
+             "rule (identity or a swap with a 4-adjacent floor cell). Multiset equality itself (a counting statement) is evaluated "
+             "natively only (bounded stand-in, labelled in the evidence).",
+        design='5/C09'),
+    'C10': dict(
+        text="Proof: exact postconditions of actuate_door (only the faced door, only towards open, locked opens iff a key of the "
+             "door's colour is held, key not consumed) and actuate_box, and door/box frames of every other built-in transition, "
+             "for symbolic grids, poses, held items and actions; door flag lemma (blocking unless open).",
+        design='5/C10'),
+    'C11': dict(
+        text="Proof: random outcomes are universally quantified symbols. teleport: destination is a same-coloured other telepod, "
+             "stays otherwise, every partner is a possible outcome (existential over the draw). move_obstacles: per-iteration rule "
+             "for every outcome (moves to a 4-neighbour that was floor, stays iff none), every free neighbour is some "
+             "next_positions[i] with i in the generator's range, loop invariant as in C09; obstacle count natively only.",
+        design='5/C11'),
+    'C12': dict(
+        text="Proof: exact postcondition, purity and no-draw for every built-in reward and termination component (distance "
+             "functions as uninterpreted callables with ghost call traces), reduce_sum / reduce_any / reduce_all over three opaque "
+             "parts (same triple, sum / or / and), exit-reward iff exit-termination lemma, and GridWorld.functional_step wiring "
+             "(reward and termination evaluated on (state, action, next_state) of the same step). Not covered: "
+             "getting_closer_shortest_path / dijkstra (numpy BFS, outside the verifier).",
+        design='5/C12'),
     'C18': dict(
         text="Proof: contracts on the real geometry operators (Orientation/Position/Transform/Area methods, Grid.__mul__, "
              "get_next_position, get_manhattan_boundary) against independent spec functions, plus group/monoid/action/area-image/"
